@@ -589,6 +589,56 @@ def name_collisions_7z(limit=1000):
     return None
 
 
+class _PinnedNames:
+    """stand-in for tempfile's random name sequence: the archive author knows (guessed, read in a log, a retried name) the private directory's name"""
+
+    def __init__(self, name):
+        self.name = name
+
+    def __iter__(self):
+        return self
+
+    def __next__(self):
+        return self.name
+
+
+def name_collisions_7z_known_temp_name(limit=1000):
+    """As name_collisions_7z, but the second spelling of the path leaves the private directory and re-enters it through the directory's own
+    name (`../<temp dir name>/a.txt`): lexically inside, so the containment check accepts it, and it names the file of `a.txt`.  The
+    temp dir name is random in production; here tempfile's name sequence is pinned (BOUNDED: one pinned name, three layouts)."""
+    from sharepoint2text.parsing.extractors import archive_extractor as ae
+    pin = "c09pinned"
+    d = "tmp" + pin                              # tempfile.TemporaryDirectory(): prefix `tmp` + candidate name
+    small, big = _txt("pin-small"), _txt("pin-big", 3 * limit // 20)
+    layouts = [(f"a.txt within the limit, then ../{d}/a.txt above it", [("a.txt", small, ATTR_FILE), (f"../{d}/a.txt", big, ATTR_FILE)], [_m("pin-big")]),
+               (f"a.txt, then __MACOSX/../../{d}/a.txt", [("a.txt", small, ATTR_FILE), (f"__MACOSX/../../{d}/a.txt", _txt("pin-fork"), ATTR_FILE)], [_m("pin-fork")]),
+               (f"sub/b.txt, then sub/../../{d}/sub/b.txt above the limit", [("sub/b.txt", small, ATTR_FILE), (f"sub/../../{d}/sub/b.txt", big, ATTR_FILE)], [_m("pin-big")])]
+    old = ae._config
+    old_names = getattr(tempfile, "_get_candidate_names", None)
+    if old_names is None:
+        return None
+    ae._config = dataclasses.replace(old, max_memory_size=limit)
+    try:
+        with Sandbox() as sb:
+            for label, members, forbidden in layouts:
+                for per_file in (False, True):
+                    data = write7z(members, True, per_file_folders=per_file)
+                    tempfile._get_candidate_names = lambda: _PinnedNames(pin)
+                    try:
+                        results, problems = sb.run(data, "col.7z")
+                    finally:
+                        tempfile._get_candidate_names = old_names
+                    bad = judge(label, "col.7z", results, problems, {"forbidden": forbidden}, [])
+                    if bad:
+                        rp = report(f"7z ({'one folder per file' if per_file else 'solid'}), private directory named {d}: {label}", "col.7z", data, "exhaust", bad[0])
+                        rp["inputs"].update(max_memory_size=limit, members=[(n, len(d_)) for n, d_, _a in members], temp_dir_name=d)
+                        return rp
+    finally:
+        tempfile._get_candidate_names = old_names
+        ae._config = old
+    return None
+
+
 def oversize_7z(limit=1000):
     """7z members above the per-member limit never produce results (ZIP/TAR: archive_probe.oversize_members)."""
     from sharepoint2text.parsing.extractors import archive_extractor as ae
